@@ -6,7 +6,10 @@ import os
 
 HERE = os.path.dirname(os.path.abspath(__file__))
 VERIF = os.path.dirname(HERE)
-meta = json.load(open(os.path.join(HERE, 'props_meta.json')))
+meta = {}
+for fn in sorted(os.listdir(os.path.join(HERE, 'meta'))):
+    if fn.endswith('.json'):
+        meta[fn[:-5]] = json.load(open(os.path.join(HERE, 'meta', fn)))
 props = [json.loads(l) for l in open(os.path.join(VERIF, 'properties.jsonl'))]
 
 checks, na = [], []
